@@ -31,18 +31,23 @@ type Multi struct {
 	DecoyFirst bool   `json:"decoy_first"`
 	By         string `json:"by"` // name (ImageWithImportName) | tag (tag of the target ref) | digest (digest of the target ref)
 	PickDecoy  bool   `json:"pick_decoy"`
+	FullNames  bool   `json:"full_names,omitempty"` // every ref.name annotation holds a full image name (registry/repo:tag) instead of the bare tag
 }
+
+const fullNamePrefix = "registry.example.org/app:"
 
 // Variant is one metamorphic transformation (all parts optional).
 type Variant struct {
-	Keys     []int  `json:"keys,omitempty"` // member i gets sort key Keys[i mod len]; stable sort
-	DotSlash bool   `json:"dot_slash,omitempty"`
-	DropDirs bool   `json:"drop_dirs,omitempty"`
-	Links    []Link `json:"links,omitempty"`
-	Extra    bool   `json:"extra,omitempty"`
-	Gzip     bool   `json:"gzip,omitempty"`
-	GzSplit  []int  `json:"gz_split,omitempty"` // Gzip: the outer stream is written as len+1 gzip members cut at these offsets (mod length+1)
-	Multi    *Multi `json:"multi,omitempty"`
+	Keys       []int  `json:"keys,omitempty"` // member i gets sort key Keys[i mod len]; stable sort
+	DotSlash   bool   `json:"dot_slash,omitempty"`
+	DropDirs   bool   `json:"drop_dirs,omitempty"`
+	Links      []Link `json:"links,omitempty"`
+	Extra      bool   `json:"extra,omitempty"`
+	Gzip       bool   `json:"gzip,omitempty"`
+	TarFormat  int    `json:"tar_format,omitempty"`  // header format of every member: 0 PAX, 1 chosen by archive/tar (USTAR where it fits), 2 GNU
+	DupMembers []int  `json:"dup_members,omitempty"` // these regular members (index mod n) occur a second time with identical content
+	GzSplit    []int  `json:"gz_split,omitempty"`    // Gzip: the outer stream is written as len+1 gzip members cut at these offsets (mod length+1)
+	Multi      *Multi `json:"multi,omitempty"`
 }
 
 // link feature classes
@@ -101,15 +106,28 @@ func (v Variant) features(regNames []string) []string {
 	if v.Extra {
 		fs = append(fs, "extra")
 	}
+	if v.TarFormat != 0 {
+		fs = append(fs, fmt.Sprintf("tarformat%d", v.TarFormat))
+	}
+	if len(v.DupMembers) > 0 {
+		fs = append(fs, "dupmember")
+	}
 	if v.Gzip && len(v.GzSplit) > 0 {
 		fs = append(fs, "gzip-multimember")
 	} else if v.Gzip {
 		fs = append(fs, "gzip")
 	}
 	if v.Multi != nil {
-		fs = append(fs, "multi-"+v.Multi.By)
+		fs = append(fs, v.Multi.feature())
 	}
 	return fs
+}
+
+func (m *Multi) feature() string {
+	if m.FullNames {
+		return "multi-fullname-" + m.By
+	}
+	return "multi-" + m.By
 }
 
 func mod(a, n int) int {
@@ -144,6 +162,12 @@ func (v Variant) restrict(f string, keep bool, regNames []string) Variant {
 	if sel("extra") {
 		out.Extra = v.Extra
 	}
+	if v.TarFormat != 0 && sel(fmt.Sprintf("tarformat%d", v.TarFormat)) {
+		out.TarFormat = v.TarFormat
+	}
+	if sel("dupmember") {
+		out.DupMembers = v.DupMembers
+	}
 	if v.Gzip && len(v.GzSplit) > 0 {
 		if sel("gzip-multimember") {
 			out.Gzip, out.GzSplit = true, v.GzSplit
@@ -151,7 +175,7 @@ func (v Variant) restrict(f string, keep bool, regNames []string) Variant {
 	} else if sel("gzip") {
 		out.Gzip = v.Gzip
 	}
-	if v.Multi != nil && sel("multi-"+v.Multi.By) {
+	if v.Multi != nil && sel(v.Multi.feature()) {
 		out.Multi = v.Multi
 	}
 	return out
@@ -234,7 +258,21 @@ func (v Variant) apply(src []tarEntry) ([]tarEntry, error) {
 			if err := json.Unmarshal(idx["manifests"], &ents); err != nil {
 				return nil, fmt.Errorf("index.json manifests: %w", err)
 			}
-			de := json.RawMessage(fmt.Sprintf(`{"mediaType":%q,"digest":%q,"size":%d,"annotations":{%q:%q}}`, rm.MTOCIManifest, decoyDig, len(decoyBody), annRefName, decoyTag))
+			dtag := decoyTag
+			if v.Multi.FullNames {
+				dtag = fullNamePrefix + decoyTag
+				for k := range ents {
+					var ent map[string]json.RawMessage
+					var ann map[string]string
+					if json.Unmarshal(ents[k], &ent) != nil || json.Unmarshal(ent["annotations"], &ann) != nil || ann[annRefName] == "" {
+						continue
+					}
+					ann[annRefName] = fullNamePrefix + ann[annRefName]
+					ent["annotations"], _ = json.Marshal(ann)
+					ents[k], _ = json.Marshal(ent)
+				}
+			}
+			de := json.RawMessage(fmt.Sprintf(`{"mediaType":%q,"digest":%q,"size":%d,"annotations":{%q:%q}}`, rm.MTOCIManifest, decoyDig, len(decoyBody), annRefName, dtag))
 			if v.Multi.DecoyFirst {
 				ents = append([]json.RawMessage{de}, ents...)
 			} else {
@@ -347,6 +385,25 @@ func (v Variant) apply(src []tarEntry) ([]tarEntry, error) {
 		es = append(es, tarEntry{Name: "docs/README.txt", Type: tar.TypeReg, Data: []byte("unrelated member\n")})
 		es = append(es, tarEntry{Name: "dangling", Type: tar.TypeSymlink, Link: "docs/absent"})
 		es = append(es, tarEntry{Name: "repositories", Type: tar.TypeReg, Data: []byte("{}")})
+	}
+	if len(v.DupMembers) > 0 {
+		var regs []int
+		for i, e := range es {
+			if e.Type == tar.TypeReg {
+				regs = append(regs, i)
+			}
+		}
+		done := map[int]bool{}
+		for _, pk := range v.DupMembers {
+			if len(regs) == 0 {
+				break
+			}
+			i := regs[mod(pk, len(regs))]
+			if !done[i] {
+				done[i] = true
+				es = append(es, es[i])
+			}
+		}
 	}
 	if v.DropDirs {
 		keep := es[:0]
